@@ -495,9 +495,7 @@ class C12(Check):
             toks = case['files'][gd[1]].get('lines')
         else:
             toks = None
-        cl = sorted(set(spec.classify_token(t) for t in (toks or []))
-                    - set(['text']))
-        return '+'.join(cl) or '-'
+        return spec.leading_class(toks)
 
 
 CHECK = C12()
